@@ -573,7 +573,7 @@ func runC17(c *Ctx) {
 	c.AddCount("product_cases", int64(len(cases)))
 	c.ParallelFor(int64(len(cases)), func(w *Worker, i int64) { c17check(w, cases[i], hooked, i) })
 	// random: several errors in one call
-	n := c.pick(200000, 8000000)
+	n := c.pick(600000, 8000000)
 	c.ParallelFor(n, func(w *Worker, i int64) {
 		r := newRng(c.Seed, 0xc17, uint64(i))
 		cs := &c17case{Tail: []string{"", ".", "\n"}[r.Intn(3)]}
